@@ -147,6 +147,8 @@ type Pool struct {
 	SolverQ map[string]int
 	SolverS map[string]float64
 	SolverU map[string]int
+	violations int
+	abort      bool
 }
 
 type Worker struct {
@@ -329,10 +331,18 @@ func (w *Worker) reportViolation(e *Exec, label, kind, msg string, m map[string]
 	if n < 3 {
 		r.Violations = append(r.Violations, v)
 	}
-	if len(r.Violations) >= 40 {
+	if len(r.Violations) >= 4 {
+		// enough counterexamples from this harness run: the rest of its paths is not explored
+		// (a violated check does not need to be exhaustive, and broken code can explode)
 		r.stopped = true
 	}
 	r.mu.Unlock()
+	w.pool.mu.Lock()
+	w.pool.violations++
+	if w.pool.violations >= 24 {
+		w.pool.abort = true
+	}
+	w.pool.mu.Unlock()
 }
 
 func (w *Worker) lookupMethod(t types.Type, m *types.Func) *ssa.Function {
@@ -452,7 +462,13 @@ func (w *Worker) runPath(t task) {
 		}
 		r.mu.Unlock()
 	}()
+	w.pool.mu.Lock()
+	aborted := w.pool.abort
+	w.pool.mu.Unlock()
 	r.mu.Lock()
+	if aborted {
+		r.stopped = true
+	}
 	stopped := r.stopped
 	if r.Spec.MaxPaths > 0 && r.Paths >= r.Spec.MaxPaths && !stopped {
 		r.stopped = true
